@@ -1,6 +1,7 @@
 package c09
 
 import (
+	"bytes"
 	"crypto"
 	"crypto/ecdh"
 	"crypto/ecdsa"
@@ -18,6 +19,7 @@ import (
 	"strings"
 	"sync"
 
+	"github.com/tink-crypto/tink-go/v2/insecurecleartextkeyset"
 	"github.com/tink-crypto/tink-go/v2/insecuresecretdataaccess"
 	"github.com/tink-crypto/tink-go/v2/internal/internalapi"
 	imldsa "github.com/tink-crypto/tink-go/v2/internal/signature/mldsa"
@@ -300,7 +302,27 @@ func buildHandle(ds []kd, private bool) (*keyset.Handle, error) {
 			return nil, err
 		}
 	}
-	return km.Handle()
+	h, err := km.Handle()
+	if err != nil {
+		return nil, err
+	}
+	// Every second keyset (by the id of its first key) is used as it comes back from a
+	// serialization round trip: a key object built in memory and the key parsed from its own
+	// serialization must obey the same rules (kid strategies, custom kid incl. the empty one).
+	if len(ds) > 0 && ds[0].ID%2 == 1 {
+		var buf bytes.Buffer
+		if err := insecurecleartextkeyset.Write(h, keyset.NewBinaryWriter(&buf)); err != nil {
+			// a key that cannot be serialized (e.g. a custom kid that is not valid UTF-8) is
+			// legitimate here: use the handle as it is.  A Write that SUCCEEDS must be readable.
+			return h, nil
+		}
+		h2, err := insecurecleartextkeyset.Read(keyset.NewBinaryReader(&buf))
+		if err != nil {
+			return nil, fmt.Errorf("round trip read: %v", err)
+		}
+		return h2, nil
+	}
+	return h, nil
 }
 
 // ---- standard-library view of a key (independent of tink-go) ----
